@@ -20,10 +20,9 @@ TRUSTED = [
     "outside the model: per-element validation of stamps and links, uuid version rules, link title/description/mime, YAML input",
 ]
 
-FX_REPAIRED = 7
+FX_REPAIRED = 3      # bit 0 = fix9, bit 1 = fix10
 F9 = "C09-9-cli-verify-ignores-signed-header"
-F10 = "C09-10-empty-signature-panics-verify"
-F11 = "C09-11-nil-header-or-digest-panics-verify"
+F10 = "C09-10-empty-signature-entry-accepted"
 KEYS = [0, 1, 2, -1]
 
 # ---- three ways the envelope got signed (what the signature of key 0 covers) ----
@@ -239,11 +238,7 @@ def judge_and_compare(c, stream, case, go_rows, mo_rows, line, go_ops, mo_ops):
         cli_paths = [("cli", cli), ("bulk", bulk), ("http", web)]
 
         def fid_for_panic():
-            if case["garbage"] and codes & {EMPTYSIG, NULLSIG}:
-                return F10
-            if case["nil"] and codes & {NILHEAD, NILDIG, NULLLINK, NULLSTAMP}:
-                return F11
-            return None
+            return None     # the nil dereferences were repaired in the repository (commit 3e1b1c1): any panic is a violation
         # -- P: no path reports success for content the key holder did not sign
         if lib == "ok" and not acc:
             c.report("Envelope.Verify reports success although %s: %s" % (
@@ -254,9 +249,13 @@ def judge_and_compare(c, stream, case, go_rows, mo_rows, line, go_ops, mo_ops):
         for name, v in cli_paths:
             if v == "ok" and not (acc and val == "ok"):
                 fid = F9 if (first_by_k and val == "ok" and lib != "ok") else None
-                c.report("%s verification reports success although %s: %s" % (
-                    name, "the library refuses (%s)" % lib if val == "ok" else "the envelope does not validate (%s)" % val, ctx),
-                    rep, finding_id=fid)
+                if val != "ok":
+                    why = "the envelope does not validate (%s)" % val
+                elif lib != "ok":
+                    why = "Envelope.Verify refuses with the same key (%s)" % lib
+                else:
+                    why = "a covered entry was modified" if case["broken"] else "not every signature is by the key"
+                c.report("%s verification reports success although %s: %s" % (name, why, ctx), rep, finding_id=fid)
             if v not in ("ok", "skip") and acc and val == "ok" and k >= 0:
                 c.report("%s verification fails (%s) although the envelope validates and everything signed is contained: %s" % (name, v, ctx),
                          rep, finding_id=fid_for_panic() if v == "panic" else None)
@@ -276,20 +275,15 @@ def judge_and_compare(c, stream, case, go_rows, mo_rows, line, go_ops, mo_ops):
             diffs.append("http")
         if diffs:
             fid = None
-            for fx, cand in ((6, F9), (5, F10), (3, F11), (4, None), (2, None), (1, None), (0, None)):
+            for fx, cand in ((2, F9), (1, F10), (0, None)):
                 alt = parse_out(run_oracle([c09_line(fx, 0, ops, [k])], shards=1)[0], 1)
                 if alt and alt[0][0] == val and alt[0][1] == lib and all(v in ("skip", unm(alt[0][2])) for v in (cli, bulk)) and klass(web) in ("skip", klass(alt[0][2])):
                     if cand == F9 and first_by_k:
                         fid = F9
                     elif cand == F10 and codes & {EMPTYSIG, NULLSIG}:
                         fid = F10
-                    elif cand == F11 and codes & {NILHEAD, NILDIG, NULLLINK, NULLSTAMP}:
-                        fid = F11
-                    elif cand is None:
-                        # several recorded defects at once: attribute to the first that applies, if all are recorded
-                        need = [f for f, on in ((F9, not fx & 1), (F10, not fx & 2), (F11, not fx & 4)) if on]
-                        if all(c.known(f) for f in need) and need:
-                            fid = need[0]
+                    elif cand is None and first_by_k and codes & {EMPTYSIG, NULLSIG} and c.known(F9) and c.known(F10):
+                        fid = F9    # both recorded defects at once
                     break
             c.report("implementation and model differ on %s (implementation validate/lib/cli/bulk/http = %s, model validate/lib/cli = %s): %s"
                      % (",".join(diffs), g, m, ctx), rep, finding_id=fid)
